@@ -564,12 +564,27 @@ fn assign_names(query: SqlQuery, ctx: &mut Context) -> SqlQuery {
         )
         .collect();
     ctx.anchor.reserved_table_names.extend(user_names);
+    // verification hook: state of the table-name generator and the reserved set the loops below read
+    #[cfg(prqlc_verif)]
+    log::debug!(
+        "verif:namegen-state {}",
+        serde_json::json!({"site": "assign_names", "at": "start",
+            "table_gen": ctx.anchor.table_name.clone().gen(),
+            "reserved": ctx.anchor.reserved_table_names.iter().sorted().collect::<Vec<_>>()})
+    );
 
     // generate CTE names, make sure they don't clash
     let mut table_name = std::mem::take(&mut ctx.anchor.table_name);
     let reserved = ctx.anchor.reserved_table_names.clone();
     let mut gen_name = || loop {
         let name = table_name.gen();
+        // verification hook: every name drawn from the table-name generator
+        #[cfg(prqlc_verif)]
+        log::debug!(
+            "verif:namegen-draw {}",
+            serde_json::json!({"site": "assign_names", "name": name.clone(),
+                "accepted": !reserved.contains(&name.to_lowercase())})
+        );
         if !reserved.contains(&name.to_lowercase()) {
             break name;
         }
@@ -596,6 +611,12 @@ fn assign_names(query: SqlQuery, ctx: &mut Context) -> SqlQuery {
         names.insert(decl.name.clone().unwrap());
     }
     ctx.anchor.table_name = table_name;
+    #[cfg(prqlc_verif)]
+    log::debug!(
+        "verif:namegen-state {}",
+        serde_json::json!({"site": "assign_names", "at": "end",
+            "table_gen": ctx.anchor.table_name.clone().gen()})
+    );
 
     // generate relation variable names
     RelVarNameAssigner {
@@ -664,6 +685,8 @@ impl PqMapper<RelationExpr, RelationExpr, (), ()> for RelVarNameAssigner<'_> {
         // verification hook: what reaches the regenerate-until-unused loop
         #[cfg(prqlc_verif)]
         let verif_old = name.clone();
+        #[cfg(prqlc_verif)]
+        let verif_gen_before = self.ctx.anchor.table_name.clone().gen();
 
         // make sure it is not already present in current query
         while name
@@ -674,6 +697,13 @@ impl PqMapper<RelationExpr, RelationExpr, (), ()> for RelVarNameAssigner<'_> {
             *name = Some(loop {
                 let candidate = self.ctx.anchor.table_name.gen();
                 let reserved = &self.ctx.anchor.reserved_table_names;
+                // verification hook: every name drawn from the table-name generator
+                #[cfg(prqlc_verif)]
+                log::debug!(
+                    "verif:namegen-draw {}",
+                    serde_json::json!({"site": "relvar", "name": candidate.clone(),
+                        "accepted": !reserved.contains(&candidate.to_lowercase())})
+                );
                 if !reserved.contains(&candidate.to_lowercase()) {
                     break candidate;
                 }
@@ -686,7 +716,9 @@ impl PqMapper<RelationExpr, RelationExpr, (), ()> for RelVarNameAssigner<'_> {
             used.sort();
             log::debug!(
                 "verif:namegen {}",
-                serde_json::json!({"site": "relvar", "old": verif_old, "used": used, "new": name.clone()})
+                serde_json::json!({"site": "relvar", "old": verif_old, "used": used, "new": name.clone(),
+                    "gen_before": verif_gen_before,
+                    "gen_after": self.ctx.anchor.table_name.clone().gen()})
             );
         }
 
